@@ -244,7 +244,7 @@ def obligations(tier, seed):
     for kind in ("plain", "lang", "dt"):
         obs.append(dict(oid="K/nt-quoteliteral/%s" % kind, family="k-nt-quoteliteral", desc={"kind": kind},
                         sig=[("s", "s"), ("x", "s")], pre=["len(s) <= 2", "len(x) == 0"], budget=300))
-    escs = kern.ESCAPES if tier == "thorough" else ["", "\\n", "\\\"", "\\\\", "\\u0041", "\\U0001F600", "\\u0022", "\\'"]
+    escs = kern.ESCAPES if tier == "thorough" else ["", "\\n", "\\\"", "\\\\", "\\u0041", "\\U0001F600", "\\u0022", "\\'", "\\u0041cafe"]
     m = 1 if tier == "quick" else 2
     for esc in escs:
         obs.append(dict(oid="K/nt-reader/%r" % esc, family="k-nt-reader", desc={"escape": esc}, sig=[("a", "s"), ("b", "s")],
